@@ -38,6 +38,7 @@ ASSUMPTIONS = [
     'output are not treated as malformed (RFC 8259 allows them)',
     'parse_table(json, ids) is not required to refuse unknown ids',
 ]
+ANCHORS = ['Table.from_hdf5', 'parse_biom_table', 'direct_parse_key', 'direct_slice_data', '_direct_slice_data_sparse_obs', '_direct_slice_data_sparse_samp', 'get_axis_indices', '_subset_table']
 REQUIRED = ['hdf5_default', 'hdf5_no_metadata', 'json_parse_table',
             'cli_hdf5', 'cli_json', 'cli_json_serialisations_agree',
             'unknown_refused_hdf5', 'unknown_refused_hdf5_nomd',
